@@ -145,7 +145,7 @@ CLAUSE_SETS = [["MyErr"], ["OtherErr", "MyErr"], ["MyErr", "OtherErr"], ["OtherE
                ["OtherErr", "ThirdErr", "Error", None]]
 
 
-def multi_scenario(pl, clauses, origin, loop, exitp, raise_in_handler, nested_in_handler=False):
+def multi_scenario(pl, clauses, origin, loop, exitp, raise_in_handler, nested_in_handler=False, captured=False):
     """several catch clauses on one try: the first matching one runs, the others leave no trace on the stack (locals declared after the try read their own values)"""
     if exitp in ("break", "continue") and loop == "none":
         return None
@@ -159,6 +159,10 @@ def multi_scenario(pl, clauses, origin, loop, exitp, raise_in_handler, nested_in
     cl = []
     for k, cname in enumerate(clauses):
         h = [["let", "h%d" % k, N(k)], ["expr", ["assign", "r", ["bin", "+", V("r"), S("+c%d" % k)]]], err_print("h%d" % k, "e%d" % k)]
+        if captured:
+            # the error variable of every clause lives in a box (a closure captures it); a clause that does not match must leave nothing behind
+            h += [["let", "who%d" % k, ["lambda", [], [["return", inv(inv(V("e%d" % k), "cls"), "name")]], False]], ["let", "hh%d" % k, N(50 + k)],
+                  ["print", [S("captured"), call(V("who%d" % k)), V("h%d" % k), V("hh%d" % k)]]]
         if nested_in_handler:
             # a try of its own inside every clause (its handler depth is that of the clause, whichever position the clause has)
             h += [["try", [["let", "n%d" % k, N(20 + k)], ["raise", call("OtherErr", S("nested%d" % k))]], "ne%d" % k, None,
@@ -219,6 +223,7 @@ class C04(Check):
                                     yield ("multi", pl, ci, origin, loop, exitp, rih)
                                     if origin != "none":
                                         yield ("multi", pl, ci, origin, loop, exitp, rih, True)
+                                        yield ("multi", pl, ci, origin, loop, exitp, rih, False, True)
         for f in space:
             if f[5] is None and f[6] != ORIGINS[0] and not th:
                 continue
@@ -229,7 +234,7 @@ class C04(Check):
 
     def describe(self, spec):
         if spec[0] == "multi":
-            return "multi-catch placement=%s clauses=%s origin=%s loop=%s exit=%s raise_in_handler=%s%s" % (spec[1], CLAUSE_SETS[spec[2]], spec[3], spec[4], spec[5], spec[6], " nested_try_in_every_clause" if len(spec) > 7 else "")
+            return "multi-catch placement=%s clauses=%s origin=%s loop=%s exit=%s raise_in_handler=%s%s" % (spec[1], CLAUSE_SETS[spec[2]], spec[3], spec[4], spec[5], spec[6], (" nested_try_in_every_clause" if len(spec) > 7 and spec[7] else "") + (" catch_variables_captured" if len(spec) > 8 and spec[8] else ""))
         if spec[0] == "opc":
             from vlib import spaces
             return "opcode-prefix %s: %s" % (spec[1], " ".join(spaces.OPCODE_PREFIXES[i] for i in spec[1][0])[:200])
